@@ -5,7 +5,7 @@ from vf.gen import pick_weighted
 from props import _b17 as U
 
 ID = "C44"
-THEOREMS = ["C44_eq_spec", "C44_complete", "C44_change_meaning", "C44_renames_conserve",
+THEOREMS = ["C44_eq_spec", "C44_complete", "C44_change_meaning", "C44_nodup", "C44_object_layer", "C44_renames_conserve",
             "C44_content_projection_oracle_free", "C44_decode_mode_canonical"]
 MODEL_FILES = ["DiffTree.v"]
 MODELLED = ("utils/merkletrie: DiffTree/diffNodes/diffNodesSameName/diffDirs, doubleIter + Iter + frame (as the recursive "
